@@ -506,6 +506,90 @@ class ParamGetAction(Contract):
         return out
 
 
+# ---------------------------------------------------------------------------- exploit_map / privesc_map (unbounded)
+
+s_first = z3.Function("srv_first", I_, I_)          # service -> index of the first exploit for it
+s_has = z3.Function("srv_has", I_, B_)
+q_first = z3.Function("proc_first", I_, I_)
+q_has = z3.Function("proc_has", I_, B_)
+
+
+def first1_axioms(sig):
+    """s_has(s) <=> some exploit targets service s; s_first(s) is the first such definition (same for processes)"""
+    ax = []
+    for has, first, n, k1 in ((s_has, s_first, sig.nE, sig.e_srv), (q_has, q_first, sig.nP, sig.p_proc)):
+        s_, e = sig.qvar("f1s"), sig.qvar("f1e")
+        ax.append(z3.ForAll([s_], z3.And(
+            has(s_) == z3.Exists([e], z3.And(0 <= e, e < ival(n), k1(e) == s_)),
+            z3.Implies(has(s_), z3.And(0 <= first(s_), first(s_) < ival(n), k1(first(s_)) == s_,
+                                       z3.ForAll([e], z3.Implies(z3.And(0 <= e, e < first(s_)), k1(e) != s_)))))))
+    return ax
+
+
+MAP_FIELDS = {"e": (("name", "name"), ("service", "name"), ("os", "name"), ("cost", "real"), ("prob", "real"), ("access", "int")),
+              "p": (("name", "name"), ("process", "name"), ("os", "name"), ("cost", "real"), ("prob", "real"), ("access", "int"))}
+
+
+def map_spec(sig, which, m, k):
+    """the nested map m holds exactly the first definition of every (service|process, os) pair among the first k
+    definitions: list of (label, z3 Bool)"""
+    from pyvc.values import NestedSDict
+    has, first = (e_has, e_first) if which == "e" else (p_has, p_first)
+    has1, first1 = (s_has, s_first) if which == "e" else (q_has, q_first)
+    cost, prob, acc = (sig.e_cost, sig.e_prob, sig.e_access) if which == "e" else (sig.p_cost, sig.p_prob, sig.p_access)
+    if isinstance(m, PyDict):
+        zero = z3.is_int_value(z3.simplify(k)) and z3.simplify(k).as_long() == 0
+        return [("map-holds-first-definitions", z3.BoolVal(bool(zero and not m.d and not m.sym)))]
+    if not isinstance(m, NestedSDict):
+        return [("map-holds-first-definitions", z3.BoolVal(False))]
+    s_, o_ = sig.qvar("ms"), sig.qvar("mo")
+    sel = lambda f: z3.Select(z3.Select(m.cols[f][0], s_), o_)
+    f = first(s_, o_)
+    key1 = "service" if which == "e" else "process"
+    present = z3.Select(z3.Select(m.dom2, s_), o_)
+    return [("outer-keys", z3.ForAll([s_], z3.Select(m.dom1, s_) == z3.And(has1(s_), first1(s_) < k))),
+            ("inner-keys", z3.ForAll([s_, o_], present == z3.And(has(s_, o_), f < k))),
+            ("first-definition-wins", z3.ForAll([s_, o_], z3.Implies(present, z3.And(
+                sel("name") == f + 500000, sel(key1) == s_, sel("os") == o_, sel("cost") == cost(f),
+                sel("prob") == prob(f), sel("access") == acc(f)))))]
+
+
+class _MapLoop(LoopContract):
+    ordinal = 0
+    tags = ("C11", "C12", "C05", "C07", "C01")
+    which = "e"
+
+    def snapshot(self, I, fr, seq):
+        return {}
+
+    def havoc(self, I, fr, entry, seq):
+        from pyvc.values import NestedSDict
+        A = z3.ArraySort
+        srt = {"name": I_, "int": I_, "real": R_, "bool": B_}
+        var = "e_map" if self.which == "e" else "pe_map"
+        cols = {f: (I.ctx.fresh(f"{var}_{f}", A(I_, A(I_, srt[k]))), k) for f, k in MAP_FIELDS[self.which]}
+        fr.locals[var] = NestedSDict(I.ctx.fresh(var + "_dom1", A(I_, B_)), I.ctx.fresh(var + "_dom2", A(I_, A(I_, B_))),
+                                     cols, fresh=True, label=var)
+        for v in ("e_name", "e_def", "srv_name", "srv_map", "os", "pe_name", "pe_def", "proc_name", "proc_map"):
+            fr.locals.pop(v, None)
+
+    def inv(self, I, fr, entry, seq, k):
+        sig = I.ext_state["sig"]
+        return map_spec(sig, self.which, fr.locals["e_map" if self.which == "e" else "pe_map"], k)
+
+
+@loop_contract
+class ExploitMapLoop(_MapLoop):
+    qualname = SCN + "exploit_map"
+    which = "e"
+
+
+@loop_contract
+class PrivescMapLoop(_MapLoop):
+    qualname = SCN + "privesc_map"
+    which = "p"
+
+
 # ---------------------------------------------------------------------------- BOUNDED-ONLY contracts
 # (symbolic list / nested-dict building is out of the unbounded engine's reach: the real loops are executed on
 #  concrete-structured scenarios with symbolic contents; labelled bounded, never counted as proved)
@@ -535,7 +619,7 @@ class ExploitMapBounded(_MapModel):
     verify = True
     inline_when_concrete = True
     inline_needs_key = "e_shape"       # the real loop needs concrete table keys; otherwise the model is used
-    unbounded = False
+    unbounded = True                   # symbolic tables of any size: nested-map loop invariant (ExploitMapLoop)
     # the decoded action carries the cost (C05), probability (C07) and access level (C01) of the definition the map holds
     tags = {"": ("C11", "C19", "C12", "C05", "C07", "C01")}
     which = "e"
@@ -546,7 +630,20 @@ class ExploitMapBounded(_MapModel):
     def variants(self):
         return [f"{e}/{p}" for e in range(len(E_SHAPES)) for p in range(len(P_SHAPES))]
 
+    def unbounded_variants(self):
+        return ["symbolic"]
+
     def setup(self, I, variant):
+        if variant == "symbolic":
+            sig = sig_setup(I)
+            for ax in first_axioms(sig) + first1_axioms(sig):
+                I.ctx.assume(ax)
+            sc = sig.scenario_obj(I)
+            S = Scope(sig=sig)
+            S.extra["cfg"] = None
+            S.a = {"self": sc}
+            S.call_args = ([sc], {})
+            return S
         cfg = bounded_cfg(I, variant)
         sig = sig_setup(I)
         sc = sig.scenario_obj(I)
@@ -560,6 +657,9 @@ class ExploitMapBounded(_MapModel):
         if getattr(S, "callsite", False):
             return []
         sig, cfg = S.sig, S.extra["cfg"]
+        if cfg is None:
+            n = ival(sig.nE if self.which == "e" else sig.nP)
+            return [("C11.map-" + l, t) for l, t in map_spec(sig, self.which, S.result, n)]
         shape = cfg["e_shape"] if self.which == "e" else cfg["p_shape"]
         m = S.result
         out = []
